@@ -24,6 +24,11 @@ func implHop(t []string) string {
 	var outs []string
 	for h := 0; h <= hops; h++ {
 		r := &frame.Reader{ByteReader: bytes.NewReader(cur), DialectRW: getDialectRW(t[1])}
+		if len(t) > 4 {
+			// the link delivers the bytes in pieces (header first, one byte at a time, ...)
+			plan, _ := decPlan(t[4])
+			r = &frame.Reader{ByteReader: &chunkReader{items: bytesItems(cur), plan: plan}, DialectRW: getDialectRW(t[1])}
+		}
 		if err := r.Initialize(); err != nil {
 			return "init-err"
 		}
@@ -167,6 +172,15 @@ func genC08(r *rngT, n int, tier string) {
 		}
 		execOp(fmt.Sprintf("hop - %s %d", encStream(bytesItems(b)), hops))
 		stat("c08-nodialect")
+		if i%3 == 0 {
+			// longer streams (beyond the reader's buffer) and links that deliver the frames in pieces
+			for k := 0; k < r.Intn(8); k++ {
+				b = append(b, refFrameBytes(randRawFrame(r, 1+r.Intn(2), r.bool()))...)
+			}
+			execOp(fmt.Sprintf("hop - %s %d %s", encStream(bytesItems(b)), hops, randPlan(r)))
+			execOp(fmt.Sprintf("hop - %s %d 10.300", encStream(bytesItems(b)), hops))
+			stat("c08-nodialect-pieces")
+		}
 	}
 	for i := 0; i < n; i++ {
 		dn := []string{"common", "user"}[r.Intn(2)]
@@ -213,6 +227,9 @@ func genC08(r *rngT, n int, tier string) {
 		}
 		setChecksum(f, rw.CRCExtra())
 		execOp(fmt.Sprintf("hop %s %s %d", dn, encStream(bytesItems(refFrameBytes(f))), hops))
+		if i%4 == 0 {
+			execOp(fmt.Sprintf("hop %s %s %d %s", dn, encStream(bytesItems(refFrameBytes(f))), hops, []string{"10.300", "6.300", "1", "3"}[r.Intn(4)]))
+		}
 		// edit + FixFrame: decoded message in a frame with stale checksum (and stale signature)
 		var key string = "-"
 		g := &frame.V2Frame{SequenceNumber: r.byte(), SystemID: r.byte(), ComponentID: r.byte(), Checksum: uint16(r.Intn(65536)), Message: randValue(r, m)}
